@@ -92,6 +92,8 @@ inductive Op
   | setGetRemoved (k v : Nat) (sz : Int)
   | get (k : Nat) | peek (k : Nat) | exist (k : Nat) | delete (k : Nat)
   | clear | setCapacity (c : Int) | keys | items | stats
+  /-- `Set` / `SetIfAbsent` / `SetAndGetRemoved` with a value whose `Size()` panics (a nil `Value`, or a user `Size()` that faults) -/
+  | setF (k : Nat) | setIfAbsentF (k : Nat) | setGetRemovedF (k : Nat)
 deriving DecidableEq, Repr
 
 inductive Out
@@ -112,6 +114,11 @@ def Op.sizeOk : Op → Bool
   | .set _ _ s | .setIfAbsent _ _ s | .setGetRemoved _ _ s => decide (0 ≤ s) && decide (s < 2 ^ 62)
   | .setCapacity c => decide (0 ≤ c) && decide (c < 2 ^ 62)
   | _ => true
+
+/-- the value's `Size()` faults -/
+def Op.faults : Op → Bool
+  | .setF _ | .setIfAbsentF _ | .setGetRemovedF _ => true
+  | _ => false
 
 /-- `int64` arithmetic: the value of the mathematical result after two's-complement wrap-around -/
 def wrap64 (x : Int) : Int := x.bmod (2 ^ 64)
@@ -219,6 +226,15 @@ def step (c : Cfg) (kd : Kind) (s : Lru) : Op → Lru × Out
   | .keys => (s, .keys (s.list.map (·.key)))
   | .items => (s, .items (s.list.map (fun e => (e.key, e.val))))
   | .stats => (s, .stats s.list.length s.size s.capacity s.evictions)
+  -- `updateInPlace` and `addNew` evaluate `int64(value.Size())` FIRST, before list, table or counters are touched:
+  -- the panic leaves the cache as it was (the deferred Unlock releases the mutex)
+  | .setF _ => (s, .panic)
+  | .setGetRemovedF _ => (s, .panic)
+  -- `SetIfAbsent` on a present key never looks at the value
+  | .setIfAbsentF k =>
+    match find? k s.list with
+    | some old => (if c.setIfAbsentMoves then moveToFront s old else s, .unit)
+    | none => (s, .panic)
 
 /-! ### wide variant: an array of caches behind a routing function -/
 
@@ -234,6 +250,7 @@ def Wide.new (cap : Int) (n : Nat) : Wide := ⟨List.replicate n (Lru.new (shard
 /-- operations of the `LRUFacade` / `tiny.LRU` interface (all keyed) -/
 def Op.key? : Op → Option Nat
   | .set k _ _ | .setIfAbsent k _ _ | .setGetRemoved k _ _ | .get k | .peek k | .exist k | .delete k => some k
+  | .setF k | .setIfAbsentF k | .setGetRemovedF k => some k
   | _ => none
 
 /-- a wide step: route the key, run the op on that shard. `none` = index out of range (Go panics) or unkeyed op. -/
